@@ -5929,6 +5929,8 @@ class Path(Shape, MutableSequence):
     def __add__(self, other):
         if isinstance(other, (str, Path, Subpath, Shape, PathSegment)):
             n = copy(self)
+            if isinstance(other, PathSegment):
+                other = copy(other)  # The sum must not share (or re-link) the operand.
             n += other
             return n
         return NotImplemented
@@ -5940,7 +5942,7 @@ class Path(Shape, MutableSequence):
             return path
         elif isinstance(other, PathSegment):
             path = copy(self)
-            path.insert(0, other)
+            path.insert(0, copy(other))
             return path
         else:
             return NotImplemented
